@@ -2,6 +2,7 @@
 from fractions import Fraction
 import itertools
 import math
+import numpy as np
 from harness import core
 
 ID = 'C15'
@@ -79,6 +80,40 @@ def run_impl(k, n, script):
     finally:
         A.random = old
     return [v[1] for v in rs.value], rs.n, src.ranges
+
+
+def run_impl_views(k, n, script):
+    """observations that are array VIEWS and ndarray subclasses (slices of a big buffer, masked frames): the reservoir holds the very objects it
+    was given — returns (positions by identity, n, every retained item is one of the offered objects)"""
+    import generatorpipeline.accumulators as A
+    rs = A.ReservoirSampling(length=k)
+    src = Scripted(script)
+    old = A.random
+    A.random = src
+    base = np.arange(4 * n + 8, dtype=float)
+    obs = []
+    for i in range(n):
+        if i % 3 == 0:
+            obs.append(np.ma.masked_array([float(i), float(i) + 0.5], mask=[False, True]))
+        elif i % 3 == 1:
+            obs.append(base[4 * i:4 * i + 3])
+        else:
+            obs.append(np.asarray(np.matrix([[float(i), 1.0]])) if False else base[4 * i:4 * i + 2].reshape(1, 2))
+    try:
+        for o in obs:
+            rs.accumulate(o)
+    except Exception as e:  # noqa
+        return ['!%s' % type(e).__name__], -1, False
+    finally:
+        A.random = old
+    pos, same = [], True
+    for v in rs.value:
+        j = next((i for i, o in enumerate(obs) if o is v), None)
+        if j is None:
+            same = False
+            j = next((i for i, o in enumerate(obs) if np.shape(o) == np.shape(v) and float(np.ravel(np.asarray(o))[0]) == float(np.ravel(np.asarray(v))[0])), -1)
+        pos.append(j)
+    return pos, rs.n, same
 
 
 def run_impl_accumulators(k, n, script):
@@ -309,6 +344,12 @@ def check(ctx):
             if (res4, cnt4) != (res, cnt) or consumed:
                 ctx.fail('reservoir-looks-into-observation', 'with observations that are iterators the reservoir holds positions %s (n=%s, %d observations '
                          'advanced); with ordinary objects %s (n=%s)' % (res4, cnt4, consumed, res, cnt), dict(case, observations='iterators'))
+        if n >= 1 and rng.random() < 0.4:
+            res7, cnt7, same7 = run_impl_views(k, n, draws)
+            ctx.count('view_and_subclass_observations')
+            if (res7, cnt7) != (res, cnt) or not same7:
+                ctx.fail('reservoir-looks-into-observation', 'with observations that are array views / masked arrays the reservoir holds positions %s (n=%s; the '
+                         'very objects offered: %s); with ordinary objects %s (n=%s)' % (res7, cnt7, same7, res, cnt), dict(case, observations='array views'))
         if n >= 1 and rng.random() < 0.5:
             res5, cnt5 = run_impl_accumulators(k, n, draws)
             ctx.count('accumulator_observations')
